@@ -16,6 +16,7 @@ RULE += " " + 'Figure kind std5 has 5 lines with style lists of 2, 3 and 4 entri
 RULE += " " + 'Figure kinds stdgap (a lead time without valid cases: annotation contents), qq (-sp/-xlim/-ylim: the ideal diagonal covers the visible diagonal), std1 (one-point axis: the perfect-score line has positive length).'
 RULE += " " + 'Rounds 9-10: -leg on map panel titles; figure kind tsens (time series of ensemble inputs with -q: -lw/-lc/-ls on forecast and quantile lines).'
 RULE += " " + 'Rounds 11-12: line options on both panels of igncontrib; -ms on map panels.'
+RULE += " " + 'Rounds 13-14: figure kind time (date axis): -xticks given as dates, alone and with -xticklabels, combined with -xrot / -tickfs / -ylim / -yticks / -title.'
 ASSUMPTIONS = ["figures are inspected through matplotlib's object model after canvas.draw(), not pixel by pixel",
                "cartopy is absent: maps use the plain-axes path"]
 REQUIRED_COUNTERS = ["figures", "probes", "single_option_runs", "subset_runs", "file_format_checks"]
